@@ -35,6 +35,7 @@ func libNoop(x *Exec, fr *Frame, st *State, fn *ssa.Function, args []Val, in ssa
 	}
 	return x.freshResult(st, rt)
 }
+
 var invokeTable = map[string]libFn{}
 
 func init() {
@@ -209,21 +210,25 @@ func (x *Exec) monitorEnter(st *State, p *PtrVal, in ssa.Instruction) {
 	if mon == nil {
 		return
 	}
-	if x.writes != nil {
-		for _, n := range heapNames {
-			if !x.keepOnHavoc(n) {
-				*x.writes = append(*x.writes, writeRec{n, nil})
+	if !x.sequential {
+		if x.writes != nil {
+			for _, n := range heapNames {
+				if !x.keepOnHavoc(n) {
+					*x.writes = append(*x.writes, writeRec{n, nil})
+				}
 			}
 		}
-	}
-	alloc := x.alloc(st)
-	st.havocExcept(x.keepOnHavoc)
-	na := fresh("alloc", sortInt)
-	x.assume(st, mkLe(alloc, na))
-	st.setH("$alloc", na)
-	for _, ax := range x.env.con.Axioms {
-		ce := &cenv{x: x, st: st, old: st, vars: map[string]cvar{}}
-		x.assume(st, ce.evalBool(ax.Expr))
+		alloc := x.alloc(st)
+		st.havocExcept(x.keepOnHavoc)
+		na := fresh("alloc", sortInt)
+		x.assume(st, mkLe(alloc, na))
+		st.setH("$alloc", na)
+		for _, ax := range x.env.con.Axioms {
+			ce := &cenv{x: x, st: st, old: st, vars: map[string]cvar{}}
+			x.assume(st, ce.evalBool(ax.Expr))
+		}
+	} else {
+		x.note("sequential mode: no interference from other goroutines at Lock (used for this call's own effects)")
 	}
 	ce := &cenv{x: x, st: st, old: st, vars: map[string]cvar{"self": {v: owner, t: types.NewPointer(owner.BTyp)}}}
 	x.assume(st, ce.evalBool(mon.Expr))
